@@ -266,3 +266,81 @@ def presence_grid_cases(ctx, every=1):
                 except Exception:
                     ctx.stats['presence-grid-unbuildable'] += 1
     return out
+
+
+def _grid_kinds():
+    """one representative (type, value) per base kind of the universe: every simple type, every string and time
+    type, every container kind"""
+    ks = [(('bool',), ('b', True)), (('int',), ('i', -129)), (('enum',), ('i', 2)), (('bits',), ('bits', (1, 0, 1, 1, 0, 0, 0, 0, 1))),
+          (('octs',), ('o', b'\x00\xffab')), (('null',), ('null',)), (('oid',), ('oid', (1, 3, 6, 1, 128))), (('real',), ('real', (5, 2, -3)))]
+    for name in gen.CHAR_KINDS:
+        ks.append((('str', name), ('chars', gen.ALPHABET[name][:3])))
+    ks.append((('str', 'GeneralizedTime'), ('chars', '20170801120112.5Z')))
+    ks.append((('str', 'UTCTime'), ('chars', '991231235959Z')))
+    ks.append((('seq', [('req', ('int',)), ('opt', ('octs',))]), ('rec', [('i', 5), None])))
+    ks.append((('set', [('req', ('int',)), ('req', ('bool',))]), ('rec', [('i', 5), ('b', False)])))
+    ks.append((('seqof', ('int',)), ('list', [('i', 1), ('i', 300)])))
+    ks.append((('setof', ('octs',)), ('list', [('o', b'b'), ('o', b'a')])))
+    ks.append((('choice', [('int',), ('octs',)]), ('ch', 1, ('o', b'xy'))))
+    return ks
+
+
+def tag_grid_cases(ctx, every=1):
+    """Every base kind under every tagging shape of depth 0..2 (none, EXPLICIT, IMPLICIT, EXPLICIT over EXPLICIT,
+    EXPLICIT over IMPLICIT, IMPLICIT over EXPLICIT, IMPLICIT over IMPLICIT), the classes and the tag numbers
+    rotating through {application, context, private} x {0, 30, 31, 127, 128, 16384}: what random drawing pairs only by
+    luck (a time type directly under an EXPLICIT tag, a SET OF under IMPLICIT over EXPLICIT, ...)."""
+    shapes = [(), ('exp',), ('imp',), ('exp', 'exp'), ('exp', 'imp'), ('imp', 'exp'), ('imp', 'imp')]
+    nums = [0, 30, 31, 127, 128, 16384]
+    classes = [128, 64, 192]
+    out, i = [], 0
+    for (T, v) in _grid_kinds():
+        for shape in shapes:
+            i += 1
+            if every > 1 and (i + ctx.seed) % every:
+                continue
+            TT, ok = T, True
+            for j, how in enumerate(reversed(shape)):          # innermost tagging first
+                if how == 'imp' and TT[0] == 'choice':
+                    ok = False; break                           # an untagged CHOICE cannot be tagged implicitly
+                TT = (how, (classes[(i + j) % 3], 0, nums[(i + 2 * j) % 6]), TT)
+            if not ok:
+                continue
+            try:
+                out.append(Case(TT, v))
+                ctx.stats['tag-grid:' + '/'.join(shape or ('plain',))] += 1
+            except Exception:
+                ctx.stats['tag-grid-unbuildable'] += 1
+    return out
+
+
+def set_order_grid_cases(ctx, every=1, universal_only=False):
+    """Two-member SETs over every ordered pair of member types with distinct outer tags: one type per universal tag
+    number in use (1..7, 9, 10, 12, 16, 17, 18..30) plus tagged members of each class - the canonical order of a SET
+    (by class, then number, whatever the primitive/constructed form) exercised for every pair, declared both ways."""
+    ms = []
+    for (T, v) in _grid_kinds():
+        if T[0] in ('choice',):
+            continue
+        ms.append((T, v))
+    if not universal_only:
+        ms += [(('imp', (128, 0, 0), ('int',)), ('i', 1)), (('exp', (128, 0, 1), ('int',)), ('i', 2)), (('imp', (128, 0, 31), ('seqof', ('int',))), ('list', [('i', 3)])),
+               (('imp', (64, 0, 0), ('octs',)), ('o', b'q')), (('exp', (64, 0, 17), ('null',)), ('null',)), (('imp', (192, 0, 0), ('bool',)), ('b', True)),
+               (('exp', (192, 0, 2 ** 32), ('octs',)), ('o', b''))]
+    else:
+        ms += [(('exp', (128, 0, 0), ('int',)), ('i', 1)), (('exp', (64, 0, 17), ('null',)), ('null',)), (('exp', (192, 0, 31), ('seqof', ('int',))), ('list', [('i', 3)]))]
+    from harness.gen import outer_tags
+    out, i = [], 0
+    for a, (Ta, va) in enumerate(ms):
+        for b, (Tb, vb) in enumerate(ms):
+            if a == b or outer_tags(Ta) & outer_tags(Tb):
+                continue
+            i += 1
+            if every > 1 and (i + ctx.seed) % every:
+                continue
+            try:
+                out.append(Case(('set', [('req', Ta), ('req', Tb)]), ('rec', [va, vb])))
+                ctx.stats['set-order-grid'] += 1
+            except Exception:
+                ctx.stats['set-order-grid-unbuildable'] += 1
+    return out
